@@ -130,10 +130,17 @@ func (c *Case) Violated() bool { return c.nviol > 0 }
 
 // Nontrivial records a distinct non-trivial case under key.
 func (c *Case) Nontrivial(key string) {
+	if len(c.Rep.nt) >= maxDistinctPerWorker {
+		// counted conservatively: beyond the cap distinct cases are no longer recorded (the counter says how many were dropped)
+		c.Rep.Counters["nontrivial_not_recorded_beyond_cap"]++
+		return
+	}
 	h := fnv.New64a()
 	h.Write([]byte(key))
 	c.Rep.nt[h.Sum64()] = struct{}{}
 }
+
+const maxDistinctPerWorker = 1_500_000
 
 func (c *Case) Count(name string)           { c.Rep.Counters[name]++ }
 func (c *Case) CountN(name string, n int64) { c.Rep.Counters[name] += n }
